@@ -325,6 +325,10 @@ LEDGER = {
     "C15": (["LG_CollBacked"], "LG_C15", []),
     "C16": (["LG_FailFree"], "LG_C16", []),
 }
+# C11 (resource clause at whole-application level): auth records of accounts change only by their own signed transactions
+PROPS["C11"]["families"] = PROPS["C11"]["families"] + ["ledger"]
+PROPS["C11"]["formulas"] = PROPS["C11"]["formulas"] + ["LG_Auth"]
+PROPS["C11"].setdefault("per_family", {})["ledger"] = {"nt": "LG_C11", "mc_cfg": {"quick": ["Ledger-mc-quick.cfg"], "thorough": ["Ledger-mc-quick.cfg"]}, "bug_variants": []}
 for _pid, (_forms, _nt, _bugs) in LEDGER.items():
     _p = PROPS[_pid]
     _p["families"] = [_p.pop("family"), "ledger"]
